@@ -36,6 +36,11 @@ func glob(dir string, g string) ([]string, error) {
 	for _, f := range fs {
 		info, err := os.Stat(f)
 		if err != nil {
+			// A symbolic link whose target does not exist is not a file: skip
+			// it instead of discarding every other match of the pattern
+			if li, lerr := os.Lstat(f); lerr == nil && li.Mode()&os.ModeSymlink != 0 {
+				continue
+			}
 			return nil, err
 		}
 		if info.IsDir() {
